@@ -32,10 +32,31 @@ def _enum_name(n) -> Optional[str]:
 
 # ------------------------------------------------------------------------------------------ K9 loop headers
 def _for_stmts(f) -> List[dict]:
-    return [x for x in walk(f) if x.get("kind") == "ForStmt"]
+    return [x for x in walk(f) if x.get("kind") in ("ForStmt", "WhileStmt")]
 
 
-def _loop_header(fs) -> Dict[str, object]:
+def _while_header(f, ws) -> Dict[str, object]:
+    """A `while (i < bound) { ...; i++; }` loop read like the for loop it replaces: the counter is the left side of the
+    condition, its start value the initialiser of its declaration, the steps the increments in the body."""
+    cond = strip(ws["inner"][0] if ws["inner"][0] else ws["inner"][1])
+    conds = [x for x in ws["inner"] if isinstance(x, dict) and x.get("kind") == "BinaryOperator"]
+    cond = strip(conds[0]) if conds else cond
+    op, lhs = cond.get("opcode"), ref_name(cond["inner"][0]) if cond.get("inner") else None
+    init = _var_inits(f).get(lhs)
+    steps: Dict[str, str] = {}
+    body = ws["inner"][-1]
+    for x in walk(body):
+        if x.get("kind") == "UnaryOperator" and x.get("opcode") in ("++", "--"):
+            steps[ref_name(x["inner"][0]) or "?"] = x.get("opcode")
+        if x.get("kind") == "CompoundAssignOperator" and x.get("opcode") in ("+=", "-="):
+            k = _int(x["inner"][1])
+            steps[ref_name(x["inner"][0]) or "?"] = "++" if (x.get("opcode") == "+=" and k == 1) else f"{x.get('opcode')}{k}"
+    return {"var": lhs, "start": _int(init) if init is not None else None, "op": op, "lhs": lhs, "steps": steps}
+
+
+def _loop_header(fs, f=None) -> Dict[str, object]:
+    if fs.get("kind") == "WhileStmt":
+        return _while_header(f, fs)
     inner = fs["inner"]
     init, cond, inc = inner[0], inner[2], inner[3]
     var, start = None, None
@@ -85,7 +106,7 @@ def rule_loop_headers(ctx, rep: Report, rid="K9"):
                 continue
             seen.add((id(f), k))
             n += 1
-            hd = _loop_header(fs)
+            hd = _loop_header(fs, f)
             ok = hd["var"] is not None and hd["start"] == 0 and hd["op"] == "<" and hd["lhs"] == hd["var"] \
                 and hd["steps"].get(hd["var"]) == "++" and all(v == "++" for v in hd["steps"].values())
             rep.add(rid, f"{nm}:loop #{k + 1}:counts 0 .. bound-1 upwards by one", ok,
@@ -98,6 +119,16 @@ def rule_loop_headers(ctx, rep: Report, rid="K9"):
 # ------------------------------------------------------------------------------------------ K10 guard truth tables
 class _Unknown(Exception):
     pass
+
+
+def _bool_local(f, e) -> Optional[dict]:
+    """The initialiser of a local `bool` (a named predicate) the expression refers to."""
+    e = strip(e)
+    if e.get("kind") == "DeclRefExpr" and canon_type(e.get("type", {})).replace("const", "").strip() in ("bool", "_Bool"):
+        init = _var_inits(f).get(ref_name(e))
+        if init is not None:
+            return init
+    return None
 
 
 def _atom_and_polarity(f, e) -> Tuple[object, bool]:
@@ -139,6 +170,13 @@ def _atom_and_polarity(f, e) -> Tuple[object, bool]:
 
 def _eval(f, e, env: Dict[object, bool]) -> bool:
     e = strip(e)
+    if e.get("kind") == "_Not":
+        return not _eval(f, e["inner"][0], env)
+    if e.get("kind") == "_And":
+        return all(_eval(f, x, env) for x in e["inner"])
+    b = _bool_local(f, e)
+    if b is not None:
+        return _eval(f, b, env)
     if e.get("kind") == "BinaryOperator" and e.get("opcode") in ("||", "&&"):
         a = _eval(f, e["inner"][0], env)
         b = _eval(f, e["inner"][1], env)
@@ -153,6 +191,14 @@ def _eval(f, e, env: Dict[object, bool]) -> bool:
 
 def _atoms(f, e, out: Set[object]):
     e = strip(e)
+    if e.get("kind") in ("_Not", "_And"):
+        for x in e["inner"]:
+            _atoms(f, x, out)
+        return
+    b = _bool_local(f, e)
+    if b is not None:
+        _atoms(f, b, out)
+        return
     if e.get("kind") == "BinaryOperator" and e.get("opcode") in ("||", "&&"):
         _atoms(f, e["inner"][0], out)
         _atoms(f, e["inner"][1], out)
@@ -166,16 +212,49 @@ def _atoms(f, e, out: Set[object]):
 
 
 def _error_conditions(stmts) -> List[dict]:
-    """Conditions under which the statement list raises, in order: `if (c) error(..)` and else-if chains of them."""
+    """Conditions under which the statement list raises, in order: `if (c) error(..)` and else-if chains of them, and -
+    for the early-return form `if (ok) return; error(..);` - the negation of the conditions under which the function
+    has already returned, for an error call that stands unconditionally in the statement list."""
     out = []
+    returned: List[dict] = []
     for st in stmts:
         cur = st
+        if cur.get("kind") == "IfStmt":
+            inner = cur.get("inner", [])
+            then = inner[1] if len(inner) > 1 else {}
+            only_return = not any(callee(c) in ERROR_FAMILY for c in calls(then)) and any(x.get("kind") == "ReturnStmt" for x in walk(then)) \
+                and len(inner) == 2 and not any(x.get("inner") for x in walk(then) if x.get("kind") == "ReturnStmt")
+            if only_return:
+                returned.append(inner[0])
+                continue
         while cur is not None and cur.get("kind") == "IfStmt":
             inner = cur.get("inner", [])
             if len(inner) > 1 and any(callee(c) in ERROR_FAMILY for c in calls(inner[1])):
-                out.append(inner[0])
+                out.append(inner[0] if not returned else {"kind": "_And", "inner": [{"kind": "_Not", "inner": [r]} for r in returned] + [inner[0]]})
             cur = inner[2] if len(inner) > 2 else None
+        if st.get("kind") != "IfStmt" and returned and any(callee(c) in ERROR_FAMILY for c in calls(st)):
+            out.append({"kind": "_And", "inner": [{"kind": "_Not", "inner": [r]} for r in returned]})
     return out
+
+
+def guard_exact(f, want_atoms: Dict[object, bool], stmts=None) -> Optional[bool]:
+    """Do the error guards of `f` raise exactly when some wanted atom has the wrong value?  None: not decidable here."""
+    body_stmts = stmts if stmts is not None else statements(f)
+    conds = _error_conditions(body_stmts)
+    if not conds:
+        return None
+    try:
+        atoms: Set[object] = set()
+        for c in conds:
+            _atoms(f, c, atoms)
+        universe = sorted(set(want_atoms) | atoms, key=repr)
+        for vals in itertools.product([False, True], repeat=len(universe)):
+            env = dict(zip(universe, vals))
+            if any(_eval(f, c, env) for c in conds) != any(env[a] != v for a, v in want_atoms.items()):
+                return False
+        return True
+    except _Unknown:
+        return None
 
 
 def _guard_obligation(rep, rid, f, label: str, want_atoms: Dict[object, bool], detail: str, stmts=None):
@@ -185,7 +264,7 @@ def _guard_obligation(rep, rid, f, label: str, want_atoms: Dict[object, bool], d
     conds = _error_conditions(body_stmts)
     # a return placed in front of a guard leaves the function before the guard is evaluated
     last_guard = max((i for i, st in enumerate(body_stmts) if _error_conditions([st])), default=-1)
-    early = [line_of(r) for i, st in enumerate(body_stmts[: max(last_guard, 0)]) for r in walk(st) if r.get("kind") == "ReturnStmt"]
+    early = [line_of(r) for i, st in enumerate(body_stmts[: max(last_guard, 0)]) for r in walk(st) if r.get("kind") == "ReturnStmt" and r.get("inner")]
     if early:
         rep.add(rid, label, False, f"{detail}; a `return` at line {early} leaves the function before the guard is evaluated: inputs taking that "
                                    f"path are converted without the check", hloc(f))
@@ -234,7 +313,7 @@ def rule_guard_truth_tables(ctx, rep: Report, rid="K10"):
         n += 1
         _guard_obligation(rep, rid, su, "unwrap<string>:raises exactly when the array is not a character array (mxArrayToString gave NULL)",
                           {("nonnull", "mxArrayToString"): True}, "mxArrayToString returns NULL for anything that is not a character array")
-    co_ = h.functions("create_object")
+    co_ = h.functions_inlined("create_object")
     written = [_enum_name(call_args(c)[2]) for c in calls(co_[0], "mxCreateNumericMatrix")] if co_ else []
     ptr_class = written[1] if len(written) > 1 else "?"     # what mxUINT32OR64_CLASS expands to in this configuration
     for f in h.functions("unwrap_shared_ptr"):
@@ -262,7 +341,7 @@ def rule_guard_truth_tables(ctx, rep: Report, rid="K10"):
         n += 1
         _guard_obligation(rep, rid, ca[0], "checkArguments:raises exactly when the argument count differs from the expected one",
                           {("eq", "nargin", "expected"): True}, "a routine called with the wrong number of arguments must not index past its inputs")
-    co = h.functions("create_object")
+    co = h.functions_inlined("create_object")
     if co:
         f = co[0]
         # the three look-ups of the virtual branch: registry present, entry present, name copied (mxGetString returns 0 on success)
@@ -336,7 +415,7 @@ def rule_creation_calls(ctx, rep: Report, rid="K11"):
             "past `dims`, or a store outside `dims` corrupts the result", hloc(f))
     for fname, want in (("wrap_enum", [("mxCreateDoubleMatrix", (1, 1))]),
                         ("create_object", [("mxCreateNumericMatrix", (1, 1)), ("mxCreateNumericMatrix", (1, 1))])):
-        fs = h.functions(fname)
+        fs = h.functions_inlined(fname)
         if not fs:
             raise AnalysisError(f"{fname} not found")
         found = [(callee(c), (_int(call_args(c)[0]), _int(call_args(c)[1]))) for c in calls(fs[0]) if callee(c) in ("mxCreateDoubleMatrix", "mxCreateNumericMatrix")]
@@ -344,7 +423,7 @@ def rule_creation_calls(ctx, rep: Report, rid="K11"):
         rep.add(rid, f"{fname}:the arrays it fills with one value are 1x1", found == want,
                 f"creations {found}, expected {want}: the single store goes to element 0 - an empty array has no element 0, a larger one "
                 f"fails the 1x1 test of the reader", hloc(fs[0]))
-    co = h.functions("create_object")[0]
+    co = h.functions_inlined("create_object")[0]
     classes = [_enum_name(call_args(c)[2]) for c in calls(co, "mxCreateNumericMatrix")]
     rep.add(rid, "create_object:constructor key is a uint64 array, the pointer a pointer-sized one",
             len(classes) == 2 and classes[0] == "mxUINT64_CLASS" and classes[1] in ("mxUINT64_CLASS", "mxUINT32_CLASS"),
@@ -379,7 +458,7 @@ def rule_matlab_calls(ctx, rep: Report, rid="K12"):
                 stores.append(0)
     rep.add(rid, "wrap_enum:the enumerator's value is stored in element 0 of the 1x1 array", stores == [0],
             f"stores to elements {stores}: the value must be written, and written inside the one-element buffer", hloc(we))
-    co = h.functions("create_object")
+    co = h.functions_inlined("create_object")
     if not co:
         raise AnalysisError("create_object not found")
     f = co[0]
@@ -534,8 +613,8 @@ def rule_wide_integers_read_exactly(ctx, rep: Report, rid="K14"):
         if n_.get("kind") == "IfStmt" and n_.get("inner"):
             cond = strip(n_["inner"][0])
             if cond.get("kind") == "BinaryOperator" and cond.get("opcode") == "==":
-                labs = [_enum_name(x) for x in cond["inner"] if _enum_name(x)]
-                if labs and any(callee(strip(x)) == "mxGetClassID" for x in cond["inner"]):
+                labs = [_enum_name(x) for x in cond["inner"] if _enum_name(x) and str(_enum_name(x)).startswith("mx")]
+                if labs and any(callee(strip(x)) == "mxGetClassID" or _source_of(f, x) == "mxGetClassID" for x in cond["inner"]):
                     ty = typed_read(n_["inner"][1]) if len(n_["inner"]) > 1 else None
                     if ty:
                         found[labs[0]] = ty
